@@ -153,7 +153,7 @@ func checkC17(w *World, r *Report) {
 	r.Try(func() { ruleListOrderPreserved(w, r, "R17.10", la) })
 	r.Rule("R17.11", 5, "what is served is what was registered: instance registrations are answered with the descriptor's own instance, constructors with the descriptor's own function")
 	r.Try(func() { ruleFunctionIdentity(w, r, "R17.11") })
-	r.Rule("R17.13", 2, "acceptance of a registration depends on the registry views and on the batch in hand only: every table the duplicate test consults is a view or a set made for this batch")
+	r.Rule("R17.13", 1, "acceptance of a registration depends on the registry views and on the batch in hand only: every table the duplicate test consults is a view or a set made for this batch")
 	r.Try(func() { ruleDuplicateTestReadsViewsOnly(w, r, "R17.13") })
 	r.Rule("R17.14", 4, "a registration issued through a module reaches the collection: AddModules and NewModule are the plain traversal (every invocation applies every builder, first error returned)")
 	r.Try(func() { reexport(w, r, "R17.14", func(sub *Report) { checkC20(w, sub) }, "R20.1", "R20.2") })
